@@ -84,8 +84,15 @@ def snapshot_driver():
   os.close(fd)
   shutil.copy2(src, dst)
   os.chmod(dst, 0o755)
+  cleanup_private_driver()
   _PRIVATE_DRIVER[0] = dst
-  atexit.register(lambda: os.path.exists(dst) and os.remove(dst))
+  atexit.register(cleanup_private_driver)
+
+
+def cleanup_private_driver():
+  dst, _PRIVATE_DRIVER[0] = _PRIVATE_DRIVER[0], None
+  if dst and os.path.exists(dst):
+    os.remove(dst)
 
 
 def regen_constants():
